@@ -537,7 +537,7 @@ func runScenario(sc *scenario, scratch string) (*vtrace.Trace, error) {
 		rec.emit(vtrace.Event{"ev": "man", "n": n.Name, "kind": n.Kind})
 		for _, e := range n.Edges {
 			psel := 1
-			if (e.Role == "entry" || e.Role == "bentry") && len(plats) > 0 && !plats[e.Plat] {
+			if (e.Role == "entry" || e.Role == "bentry" || e.Role == "uentry") && len(plats) > 0 && !plats[e.Plat] {
 				psel = 0
 			}
 			rec.emit(vtrace.Event{"ev": "edge", "p": n.Name, "c": e.C, "role": e.Role, "psel": psel, "hosted": 1})
